@@ -415,6 +415,45 @@ func (g *seqGen) failThenSucceed(l, l2 int, ent []byte, w []string, own, wide st
 	}
 }
 
+// cacheWrap appends n distinct calls of one family, then the same calls again in the same order
+// and once more in reverse order: a bounded cache, ring or memo inside the library that wraps
+// or evicts wrongly answers a repeated call from another call's entry. Families: 0 validations
+// of spellings that need normalising (valid and wrong-checksum alternating), 1 validations of
+// NFKD sentences under alternating languages, 2 encodings, 3 seeds of spellings that need
+// normalising, 4 names of unsupported values.
+func (g *seqGen) cacheWrap(family, n int) {
+	r, m := g.r, g.e.Model
+	first := len(g.ops)
+	for k := 0; k < n; k++ {
+		l := r.Intn(ref.NLang)
+		ent := r.Bytes(ref.EntSizes[r.Intn(5)])
+		w := m.Words(ent, l)
+		switch family {
+		case 0:
+			if k%2 == 1 {
+				w[len(w)-1] = m.List[l][m.Index[l][w[len(w)-1]]^1]
+			}
+			sep := []string{"\u3000", "\u00a0", "\u2003"}[k%3]
+			g.add(plan.Op{Fn: []string{"chk", "val"}[k%2], L: int64(l), S: hxs(strings.Join(w, sep))})
+		case 1:
+			g.add(plan.Op{Fn: "chk", L: int64((l + k%2) % ref.NLang), S: hxs(strings.Join(w, " "))})
+		case 2:
+			g.add(plan.Op{Fn: "enc", L: int64(l), E: hx(ent), Keep: k%4 == 0})
+		case 3:
+			g.add(plan.Op{Fn: "seed", S: hxs(strings.Join(w, "\u3000")), P: hxs("\uff50" + itoa(k)), Keep: k%4 == 0})
+		case 4:
+			g.add(plan.Op{Fn: "str", L: int64(10 + r.Intn(1<<40))})
+		}
+	}
+	again := append([]plan.Op(nil), g.ops[first:]...)
+	for _, op := range again {
+		g.add(op)
+	}
+	for i := len(again) - 1; i >= 0; i-- {
+		g.add(again[i])
+	}
+}
+
 // soloKey identifies a call independently of its position.
 func soloKey(op plan.Op) string {
 	op.I, op.Keep, op.Buf, op.Cap, op.Arena = 0, false, 0, 0, false
@@ -670,6 +709,91 @@ func checkC13(e *Env) {
 		runSequence("pause"+itoa(h), g, 1)
 	})
 
+	// (a4) n distinct calls, then the same calls again and once more in reverse order: bounded
+	// caches, rings and memos that wrap
+	var wraps [][2]int
+	for family := 0; family < 5; family++ {
+		for _, n := range []int{20, 40, 150, 600, e.pick(2500, 12000)} {
+			if family == 3 && n > 150 {
+				continue // 2048 rounds of HMAC each
+			}
+			wraps = append(wraps, [2]int{family, n})
+		}
+	}
+	parallel(len(wraps), e.Workers, func(k int) {
+		g := &seqGen{e: e, r: rng.New(e.Seed, "C13-wrap-"+itoa(k)), bufs: map[int][]byte{}}
+		g.cacheWrap(wraps[k][0], wraps[k][1])
+		obs.Inc("cache_wrap_sequences")
+		runSequence(fmt.Sprintf("wrap(family %d, %d distinct calls)", wraps[k][0], wraps[k][1]), g, 97)
+	})
+
+	// (a5) the same call 70 000 times in a row (300 times for seeds), then probes of the other
+	// functions: counters that wrap at 2^8 or 2^16, tables that fill up
+	{
+		r := rng.New(e.Seed, "C13-rep")
+		m := e.Model
+		var reps []plan.Op
+		for k := 0; k < 6; k++ {
+			l := r.Intn(ref.NLang)
+			ent := r.Bytes(ref.EntSizes[r.Intn(5)])
+			w := m.Words(ent, l)
+			bad := append([]string(nil), w...)
+			bad[len(bad)-1] = m.List[l][m.Index[l][bad[len(bad)-1]]^1]
+			n := e.pick(70000, 300000)
+			reps = append(reps, []plan.Op{
+				{Fn: "chk", L: int64(l), S: hxs(strings.Join(w, " ")), Rep: n},
+				{Fn: "val", L: int64(l), S: hxs(strings.Join(bad, "\u3000")), Rep: n},
+				{Fn: "enc", L: int64(l), E: hx(ent), Rep: n},
+				{Fn: "str", L: int64(l), Rep: n},
+				{Fn: "str", L: int64(1000 + k), Rep: n},
+				{Fn: "seed", S: hxs(strings.Join(w, "\u3000")), P: hxs("\uff50"), Rep: 300},
+				{Fn: "new", L: int64(l), N: int64(len(w)), Src: &plan.Src{Data: hx(ent)}, Rep: 300},
+				{Fn: "chk", L: int64(l), S: hxs(strings.Join(w[1:], " ")), Rep: n},
+			}[k%8+0])
+			if k < 2 {
+				reps = append(reps, plan.Op{Fn: "chk", L: int64(l), S: hxs(strings.Join(w[:len(w)-1], " ") + " qzx"), Rep: n})
+			}
+		}
+		// every kind at least once
+		l := 3
+		ent := r.Bytes(16)
+		w := m.Words(ent, l)
+		reps = append(reps, plan.Op{Fn: "seed", S: hxs(strings.Join(w, "\u3000")), P: hxs("\uff50"), Rep: 300},
+			plan.Op{Fn: "new", L: int64(l), N: 12, Src: &plan.Src{Data: hx(ent)}, Rep: 300},
+			plan.Op{Fn: "chk", L: int64(l), S: hxs(strings.Join(w[1:], " ")), Rep: e.pick(70000, 300000)})
+		parallel(len(reps), e.Workers, func(k int) {
+			g := &seqGen{e: e, r: rng.New(e.Seed, "C13-rep-"+itoa(k)), bufs: map[int][]byte{}}
+			g.add(reps[k])
+			g.memoHunt(1)
+			obs.Inc("sequences_with_one_call_repeated_many_times")
+			g.add(plan.Op{Fn: "keepdump"})
+			res, died := e.RunProc(drv, g.ops, nil, 0)
+			if died != "" || len(res) != len(g.ops) {
+				e.Violate(&Violation{What: fmt.Sprintf("the process ended while %s was repeated %d times: %s", fnName(reps[k].Fn), reps[k].Rep, oneLine(died, 300)), Ops: g.ops[:1]})
+				return
+			}
+			for _, inf := range res[0].Info {
+				if strings.HasPrefix(inf, "rep-diverged-at=") {
+					e.Violate(&Violation{What: fmt.Sprintf("%s called %d times in a row with the same arguments: repetition %s returned something else than the first call (%s)", fnName(reps[k].Fn), reps[k].Rep, strings.TrimPrefix(inf, "rep-diverged-at="), strings.Join(res[0].Info, ", ")),
+						Ops: g.ops[:1], Observed: res[0]})
+					return
+				}
+			}
+			mu.Lock()
+			totalOps += reps[k].Rep
+			mu.Unlock()
+			// the calls after it are compared with the reference and, on deviation, with solo
+			for i := 1; i < len(res)-1; i++ {
+				op, rr := &g.ops[i], &res[i]
+				if why := e.confirmedDeviation(drv, op, rr, e.refEval(op)); why != "" && rr.Panic == "" {
+					e.Violate(&Violation{What: fmt.Sprintf("after %s had been called %d times in a row, call %d %s(lang %d): %s", fnName(reps[k].Fn), reps[k].Rep, i, fnName(op.Fn), op.L, why),
+						Ops: g.ops[:i+1], Observed: rr, Detail: historyNote})
+					return
+				}
+			}
+		})
+	}
+
 	// (b) random sequences
 	nseq := e.pick(60, 2000)
 	parallel(nseq, e.Workers, func(s int) {
@@ -726,7 +850,7 @@ func checkC13(e *Env) {
 	e.WriteEvidence("exploration", map[string]any{
 		"evaluations":                      totalOps,
 		"distinct_nontrivial":              dist.Len(),
-		"rule":                             "cases are call sequences executed in one fresh process each: (a) every ordered pair of first-used languages (10x10; thorough 13x13 incl. -1, 10, 100, three first-call kinds, two repetitions) followed by probe calls on all ten languages; (a') ten kinds of failing or unsupported first calls, each followed by first use of every language; (a'') memo-hunting patterns (a string accepted under one language asked under another, the same words in another spelling, a near miss right after a hit, the same entropy under another language, identical and almost identical seed arguments, scripted sources replayed under another language); (a3) the same calls again after the process was idle for 1.1 s and 2.1 s with garbage collections in between; (b) seeded random sequences of 100-300 calls (one call in five is repeated immediately, then followed by different ones) over all six functions, ten languages and unsupported values, with failing calls, repeated inputs far apart, caller-owned entropy buffers reused across calls, and NewMnemonic on scripted and default sources; every result is compared with the history-free reference model and with the same call executed alone as the first call of another fresh process (all deterministic calls in quick; one in eight of the random sequences' calls in thorough); (c) a few sequences of 4000 (thorough 20000) calls; (d) NewMnemonic over one scripted source that stays installed across calls, reports transient errors during some of them and then works again; (e) a small pool of calls of all functions repeated by 8-16 goroutines from a cold start, every observation compared with the same call executed alone; entropy buffers are re-inspected after every call and at the end, and every retained result is re-read (digest) at the end of its sequence; non-trivial = every call with history; distinct = distinct calls (function, arguments)",
+		"rule":                             "cases are call sequences executed in one fresh process each: (a) every ordered pair of first-used languages (10x10; thorough 13x13 incl. -1, 10, 100, three first-call kinds, two repetitions) followed by probe calls on all ten languages; (a') ten kinds of failing or unsupported first calls, each followed by first use of every language; (a'') memo-hunting patterns (a string accepted under one language asked under another, the same words in another spelling, a near miss right after a hit, the same entropy under another language, identical and almost identical seed arguments, scripted sources replayed under another language); (a3) the same calls again after the process was idle for 1.1 s and 2.1 s with garbage collections in between; (a4) 20 to 2500 (thorough 12000) distinct calls of one kind, then the same calls again and once more in reverse order (bounded caches that wrap or evict); (a5) one call repeated 70 000 (thorough 300 000) times in a row — 300 times for seeds and scripted NewMnemonic — and then calls of all functions; (b) seeded random sequences of 100-300 calls (one call in five is repeated immediately, then followed by different ones) over all six functions, ten languages and unsupported values, with failing calls, repeated inputs far apart, caller-owned entropy buffers reused across calls, and NewMnemonic on scripted and default sources; every result is compared with the history-free reference model and with the same call executed alone as the first call of another fresh process (all deterministic calls in quick; one in eight of the random sequences' calls in thorough); (c) a few sequences of 4000 (thorough 20000) calls; (d) NewMnemonic over one scripted source that stays installed across calls, reports transient errors during some of them and then works again; (e) a small pool of calls of all functions repeated by 8-16 goroutines from a cold start, every observation compared with the same call executed alone; entropy buffers are re-inspected after every call and at the end, and every retained result is re-read (digest) at the end of its sequence; non-trivial = every call with history; distinct = distinct calls (function, arguments)",
 		"samples":                          smp.List(),
 		"ordered_first_use_pairs_covered":  pairs.Len(),
 		"ordered_first_use_pairs_possible": wantPairs,
@@ -764,6 +888,32 @@ func summarize(ops []plan.Op, n int) []string {
 func (e *Env) runHistories(drv, label string, n, rounds int, judge func(ops []plan.Op, res []plan.Res)) int {
 	var mu sync.Mutex
 	calls := 0
+	// many distinct calls of the monitor's own kind, then the same ones again (bounded caches)
+	families := map[string][]int{"C01": {2}, "C05": {2}, "C09": {2}, "C02": {0, 1}, "C03": {0, 1}, "C15": {0, 1}, "C04": {3}, "C11": {3}}[label]
+	var wraps [][2]int
+	for _, f := range families {
+		for _, size := range []int{40, e.pick(600, 3000)} {
+			if f == 3 && size > 150 {
+				size = 150
+			}
+			wraps = append(wraps, [2]int{f, size})
+		}
+	}
+	parallel(len(wraps), e.Workers, func(k int) {
+		g := &seqGen{e: e, r: rng.New(e.Seed, label+"-wrap-"+itoa(k)), bufs: map[int][]byte{}}
+		g.cacheWrap(wraps[k][0], wraps[k][1])
+		for i := range g.ops {
+			g.ops[i].Keep = false
+		}
+		res, died := e.RunProc(drv, g.ops, nil, 0)
+		if died != "" || len(res) != len(g.ops) {
+			return // the memo-hunting histories below report crashes
+		}
+		mu.Lock()
+		calls += len(res)
+		mu.Unlock()
+		judge(g.ops, res)
+	})
 	parallel(n, e.Workers, func(h int) {
 		g := &seqGen{e: e, r: rng.New(e.Seed, label+"-hist-"+itoa(h)), bufs: map[int][]byte{}}
 		g.memoHunt(rounds)
